@@ -13,9 +13,67 @@ from .common import dispatch_ops, generic_class, op_table, undecided_class
 from .emit import change_classes, emission_sites
 
 
+def env_total(repo: Repo, rep):
+    rep.rule(
+        "R-ENV-TOTAL",
+        "the plugin runs in whatever environment pytest was started in (cron, `docker exec` without a terminal, a reduced subprocess environment): an "
+        "environment variable is read with a default (`os.environ.get(..)`, `os.getenv(..)`) or by subscript only where its presence was tested "
+        "(`X in os.environ` on the path, or a handler for KeyError).  `os.environ[\"TERM\"]` in the report code raises KeyError when the variable is "
+        "absent: INTERNALERROR at session end, the approved changes are not written",
+    )
+    n = 0
+    bad = 0
+    for f in repo.pkg_funcs():
+        if f.module.rel.startswith("testing/"):
+            continue
+        subs = [x for x in body_nodes(f.node) if isinstance(x, ast.Subscript) and isinstance(x.ctx, ast.Load) and norm(x.value) in ("os.environ", "environ")]
+        reads = [x for x in body_nodes(f.node) if isinstance(x, ast.Call) and norm(x.func) in ("os.environ.get", "environ.get", "os.getenv", "getenv")]
+        n += len(subs) + len(reads)
+        if not subs:
+            continue
+        cfg = cfg_of(f)
+        for x in subs:
+            key = norm(x.slice)
+            at = cfg.nodes_containing(x)
+            guards = [(c, "T") for c in cfg.conds() if isinstance(c.ast, ast.Compare) and len(c.ast.ops) == 1 and isinstance(c.ast.ops[0], ast.In) and norm(c.ast.left) == key and norm(c.ast.comparators[0]) == norm(x.value)]
+            guards += [(c, "F") for c in cfg.conds() if isinstance(c.ast, ast.Compare) and len(c.ast.ops) == 1 and isinstance(c.ast.ops[0], ast.NotIn) and norm(c.ast.left) == key and norm(c.ast.comparators[0]) == norm(x.value)]
+            handled = any(isinstance(a_, ast.Try) and any(h.type is None or any(t in norm(h.type) for t in ("KeyError", "LookupError", "Exception")) for h in a_.handlers) and any(x is y for s_ in a_.body for y in ast.walk(s_)) for a_ in ancestors(x))
+            # `"TERM" in os.environ and os.environ["TERM"] == ...` inside one expression (a conditional expression is no branch of the statement graph)
+            chain = [x] + list(ancestors(x))
+            for child, a_ in zip(chain, chain[1:]):
+                if isinstance(a_, ast.BoolOp) and isinstance(a_.op, ast.And):
+                    idx = [i for i, v_ in enumerate(a_.values) if v_ is child]
+                    if idx and any(isinstance(v_, ast.Compare) and len(v_.ops) == 1 and isinstance(v_.ops[0], ast.In) and norm(v_.left) == key and norm(v_.comparators[0]) == norm(x.value) for v_ in a_.values[: idx[0]]):
+                        handled = True
+                if isinstance(a_, ast.IfExp) and child is a_.body and isinstance(a_.test, ast.Compare) and len(a_.test.ops) == 1 and isinstance(a_.test.ops[0], ast.In) and norm(a_.test.left) == key and norm(a_.test.comparators[0]) == norm(x.value):
+                    handled = True
+                if isinstance(a_, ast.stmt):
+                    break
+            if handled or (at and guards and edges_dominate(cfg, guards, at[0])):
+                rep.ok("R-ENV-TOTAL", f, x, f"`{norm(x)}` is read only where the variable is present")
+            else:
+                bad += 1
+                rep.violation(
+                    "R-ENV-TOTAL",
+                    f,
+                    x,
+                    f"{f.qualname} reads `{norm(x)}` without a default and without testing that the variable is set: where it is absent (cron, `docker exec` without -t, a reduced subprocess environment) this is a "
+                    "KeyError - raised from the end-of-session code it is an INTERNALERROR and the approved changes are not written",
+                    construct=f"{f.qualname}:{norm(x)}",
+                )
+    if not bad:
+        rep.ok("R-ENV-TOTAL", repo.module("pytest_plugin.py"), None, f"{n} reads of the environment, none can raise KeyError", site="src/inline_snapshot: os.environ reads")
+    rep.floor("R-ENV-TOTAL", "reads of the process environment", n, 3)
+    # positive example: the rule must match a known-bad fragment on every run
+    probe = ast.parse('os.environ["TERM"]').body[0].value
+    if not (isinstance(probe, ast.Subscript) and norm(probe.value) == "os.environ"):
+        rep.undecided("R-ENV-TOTAL", "positive example not matched (rule broken)")
+
+
 def check(repo: Repo, rep, tier):
     rep.not_decided = "absence of internal errors in general; only the enumerated error classes are decided"
     definite_init(repo, rep)
+    env_total(repo, rep)
     end_no_usercmp(repo, rep)
     replace_pair(repo, rep, "C18")
     ctx_restore(repo, rep)
@@ -55,6 +113,12 @@ def check(repo: Repo, rep, tier):
     from .C01 import import_step
 
     import_step(repo, rep)
+    from .C02 import file_loops_total
+
+    file_loops_total(repo, rep)
+    from .C03 import io_encoding
+
+    io_encoding(repo, rep)
 
 
 SESSION_END = ("_get_changes", "_new_code")
